@@ -51,7 +51,8 @@ P("C02", [f"{UT}:rlencode", f"{CR}:index_pixels", f"{CR}:index_bins"], "bounded/
 P("C03", [f"{RQ}:_comes_before", f"{RQ}:_contains", f"{RQ}:arg_prune_partition",
           f"{RQ}:CSRReader.get_spans", f"{RQ}:CSRReader.__call__",
           f"{RQ}:FillLowerRangeQuery2D.__init__", f"{RQ}:DirectRangeQuery2D.__init__",
-          f"{SEL}:_IndexingMixin._process_slice", f"{SEL}:_IndexingMixin._unpack_index", f"{API}:matrix", f"{API}:Cooler.matrix"],
+          f"{SEL}:_IndexingMixin._process_slice", f"{SEL}:_IndexingMixin._unpack_index",
+          f"{SEL}:RangeSelector2D.__getitem__", f"{SEL}:RangeSelector2D.fetch", f"{API}:matrix", f"{API}:Cooler.matrix"],
   "bounded/C03.py",
   "Proof: every obligation generated from the real source of the range-query engine (case split of "
   "FillLowerRangeQuery2D, CSRReader row loop with column mask and reflection, span pruning, slice normalisation) is "
@@ -61,7 +62,8 @@ P("C03", [f"{RQ}:_comes_before", f"{RQ}:_contains", f"{RQ}:arg_prune_partition",
               "BaseRangeQuery2D.get/to_array/to_sparse_matrix/to_frame", "RangeSelector2D.__getitem__/fetch"])
 
 P("C04", [f"{RQ}:_region_to_extent", f"{RQ}:region_to_extent", f"{RQ}:region_to_offset", "cooler.api:Cooler.extent",
-           "cooler.api:Cooler.offset", f"{UT}:parse_region", f"{UT}:get_binsize"], "bounded/C04.py",
+           "cooler.api:Cooler.offset", f"{SEL}:RangeSelector1D.fetch", f"{SEL}:RangeSelector2D.fetch",
+           f"{UT}:parse_region", f"{UT}:get_binsize"], "bounded/C04.py",
   "Proof of the extent arithmetic for all bin tables, chromosomes and ranges (fixed path relative to the C20 "
   "'fixed' predicate, variable path over the searchsorted contract), of parse_region's defaults/bounds/refusals, and "
   "of the public wrappers region_to_extent / region_to_offset / Cooler.extent / Cooler.offset, each checked against "
@@ -107,7 +109,7 @@ P("C12", [f"{API}:matrix", f"{API}:Cooler.matrix", f"{RQ}:CSRReader.__call__"], 
 P("C13", [f"{ING}:_validate_pixels"], "bounded/C13.py", "Proof core: the default validator accepts a chunk iff it has no out-of-range id, no lower-triangle pixel (symmetric mode) and no in-chunk duplicate, raises BadInputError exactly otherwise, and returns the records unchanged (pandas duplicated/sort_values by assumed contract). The no-cooler-after-failure and frame clauses are covered by the bounded tier (fault injection at every chunk index).", level="other",
   unverified=["create() exceptional postcondition and frame (ghost HDF5 model not built)"])
 
-P("C14", [f"{SEL}:_IndexingMixin._process_slice", f"{TOP}:get"], "bounded/C14.py",
+P("C14", [f"{SEL}:_IndexingMixin._process_slice", f"{SEL}:RangeSelector1D.__getitem__", f"{SEL}:RangeSelector1D.fetch", f"{TOP}:get"], "bounded/C14.py",
   "Proof core: slice/scalar normalisation of every table selector for all integer bounds, and the table read (get: rows lo..hi-1 of every requested plain column, labelled lo.., independent of the column selection, Series for a single name); enum decoding, the selectors' glue and annotate "
   "are covered by the bounded tier.", level="other",
   unverified=["_tableops.get enum/bytes decoding", "RangeSelector1D.__getitem__/fetch", "api.annotate"])
